@@ -33,6 +33,7 @@ CONSTANTS Threads,      \* API goroutines
           FIX_RACE      \* D6 repaired: Add/Remove look at `done` again once they hold the lock
 
 VARIABLES kq, kmark, nfs, ovfd,          \* kernel: queue, mark on the file, operations done, overflow marker queued
+          fnamed, falive,                \* the watched path still names the file; the file (inode) still exists
           fdOpen,                        \* the inotify descriptor
           mu, done, doneResp,            \* mutex owner ("free" / "rd" / thread), closed channels
           evq, evClosed, errClosed,      \* Events buffer, channels closed by the reader
@@ -40,12 +41,13 @@ VARIABLES kq, kmark, nfs, ovfd,          \* kernel: queue, mark on the file, ope
           rd,                            \* reader: [pc, buf, cur, out, err]
           th,                            \* thread -> [pc, op, res]
           errs, closeRet                 \* ghosts: errors delivered, some Close has returned
-vars == <<kq, kmark, nfs, ovfd, fdOpen, mu, done, doneResp, evq, evClosed, errClosed, tab, rd, th, errs, closeRet>>
+vars == <<kq, kmark, nfs, ovfd, fnamed, falive, fdOpen, mu, done, doneResp, evq, evClosed, errClosed, tab, rd, th, errs, closeRet>>
+fsx == <<fnamed, falive>>
 
 Ops == {"add", "remove", "watchlist", "close"}
 Idle == [pc |-> "idle", op |-> "none", res |-> "none"]
 
-Init == /\ kq = <<>> /\ kmark = FALSE /\ nfs = 0 /\ ovfd = FALSE /\ fdOpen = TRUE
+Init == /\ kq = <<>> /\ kmark = FALSE /\ nfs = 0 /\ ovfd = FALSE /\ fdOpen = TRUE /\ fnamed = TRUE /\ falive = TRUE
         /\ mu = "free" /\ done = FALSE /\ doneResp = FALSE
         /\ evq = <<>> /\ evClosed = FALSE /\ errClosed = FALSE /\ tab = FALSE
         /\ rd = [pc |-> "top", buf |-> <<>>, cur |-> "none", out |-> "none", err |-> "none"]
@@ -54,16 +56,22 @@ Init == /\ kq = <<>> /\ kmark = FALSE /\ nfs = 0 /\ ovfd = FALSE /\ fdOpen = TRU
 ---------------------------------------------------------------------------
 \* Kernel / file system
 Enq(q, r) == IF Len(q) < MaxQ THEN Append(q, r) ELSE q
-FsChmod == /\ nfs < MaxFs /\ fdOpen /\ kmark /\ nfs' = nfs + 1
-           /\ IF Len(kq) < MaxQ THEN kq' = Append(kq, "ev") /\ UNCHANGED ovfd
+\* chmod reaches the file through any name it has; a record only if the file is watched
+FsChmod == /\ nfs < MaxFs /\ falive /\ nfs' = nfs + 1
+           /\ IF ~(fdOpen /\ kmark) THEN UNCHANGED <<kq, ovfd>>
+              ELSE IF Len(kq) < MaxQ THEN kq' = Append(kq, "ev") /\ UNCHANGED ovfd
               ELSE IF ~ovfd THEN kq' = Append(kq, "ovf") /\ ovfd' = TRUE      \* the marker is appended once, further records are dropped
               ELSE UNCHANGED <<kq, ovfd>>
-           /\ UNCHANGED <<kmark, fdOpen, mu, done, doneResp, evq, evClosed, errClosed, tab, rd, th, errs, closeRet>>
-FsMove  == /\ nfs < MaxFs /\ fdOpen /\ kmark /\ nfs' = nfs + 1
-           /\ kq' = Enq(kq, "moveself")
-           /\ UNCHANGED <<kmark, ovfd, fdOpen, mu, done, doneResp, evq, evClosed, errClosed, tab, rd, th, errs, closeRet>>
-FsDelete == /\ nfs < MaxFs /\ fdOpen /\ kmark /\ nfs' = nfs + 1
-            /\ kq' = Enq(Enq(kq, "delself"), "ignored") /\ kmark' = FALSE     \* the kernel drops the mark itself
+           /\ UNCHANGED <<kmark, fnamed, falive, fdOpen, mu, done, doneResp, evq, evClosed, errClosed, tab, rd, th, errs, closeRet>>
+\* mv path elsewhere: the file lives on under a name nobody uses here
+FsMove  == /\ nfs < MaxFs /\ fnamed /\ nfs' = nfs + 1 /\ fnamed' = FALSE
+           /\ kq' = IF fdOpen /\ kmark THEN Enq(kq, "moveself") ELSE kq
+           /\ UNCHANGED <<kmark, ovfd, falive, fdOpen, mu, done, doneResp, evq, evClosed, errClosed, tab, rd, th, errs, closeRet>>
+\* rm path (by its name, or - after a move - by the other name): the link count drops (IN_ATTRIB), then the inode goes
+FsDelete == /\ nfs < MaxFs /\ falive /\ nfs' = nfs + 1 /\ fnamed' = FALSE /\ falive' = FALSE
+            /\ IF fdOpen /\ kmark
+               THEN kq' = Enq(Enq(Enq(kq, "ev"), "delself"), "ignored") /\ kmark' = FALSE     \* the kernel drops the mark itself
+               ELSE UNCHANGED <<kq, kmark>>
             /\ UNCHANGED <<ovfd, fdOpen, mu, done, doneResp, evq, evClosed, errClosed, tab, rd, th, errs, closeRet>>
 Fs == FsChmod \/ FsMove \/ FsDelete
 
@@ -128,7 +136,7 @@ RdBuffer == /\ rd.pc = "evSend" /\ Len(evq) < Cap
 RdExit == /\ rd.pc = "exit"
           /\ doneResp' = TRUE /\ errClosed' = TRUE /\ evClosed' = TRUE /\ rd' = [rd EXCEPT !.pc = "gone"]
           /\ UNCHANGED <<kq, kmark, nfs, ovfd, fdOpen, mu, done, evq, tab, th, errs, closeRet>>
-Reader == RdTop \/ RdRead \/ RdDecode \/ RdSendAbort \/ RdLock \/ RdHandle \/ RdBuffer \/ RdExit
+Reader == (RdTop \/ RdRead \/ RdDecode \/ RdSendAbort \/ RdLock \/ RdHandle \/ RdBuffer \/ RdExit) /\ UNCHANGED fsx
 
 ---------------------------------------------------------------------------
 \* Consumer: the receiving half of the rendezvous, or a buffered receive
@@ -141,7 +149,7 @@ RecvErr == /\ rd.pc \in {"ovfSend", "errSend"}
            /\ rd' = [rd EXCEPT !.pc = IF rd.pc = "ovfSend" THEN "lock" ELSE "evSend", !.err = "none"]
            /\ mu' = IF rd.pc = "errSend" /\ mu = "rd" THEN "free" ELSE mu
            /\ UNCHANGED <<kq, kmark, nfs, ovfd, fdOpen, done, doneResp, evq, evClosed, errClosed, tab, th, closeRet>>
-Consumer == RecvEv \/ RecvErr
+Consumer == (RecvEv \/ RecvErr) /\ UNCHANGED fsx
 
 ---------------------------------------------------------------------------
 \* API goroutines
@@ -163,8 +171,9 @@ Cs(t) ==
      IF FIX_RACE /\ done /\ o \in {"add", "remove"}
      THEN Set(t, [th[t] EXCEPT !.pc = "ret", !.res = ClosedRes(o)]) /\ UNCHANGED <<tab, kmark, kq>>
      ELSE CASE o = "add" ->
-                 IF fdOpen THEN /\ kmark' = TRUE /\ tab' = TRUE /\ UNCHANGED kq /\ Set(t, [th[t] EXCEPT !.pc = "ret", !.res = "ok"])
-                           ELSE /\ UNCHANGED <<kmark, tab, kq>> /\ Set(t, [th[t] EXCEPT !.pc = "ret", !.res = "EBADF"])
+                 IF ~fdOpen THEN /\ UNCHANGED <<kmark, tab, kq>> /\ Set(t, [th[t] EXCEPT !.pc = "ret", !.res = "EBADF"])
+                 ELSE IF ~fnamed THEN /\ UNCHANGED <<kmark, tab, kq>> /\ Set(t, [th[t] EXCEPT !.pc = "ret", !.res = "ENOENT"])      \* the path names nothing
+                 ELSE /\ kmark' = TRUE /\ tab' = TRUE /\ UNCHANGED kq /\ Set(t, [th[t] EXCEPT !.pc = "ret", !.res = "ok"])
             [] o = "remove" ->
                  IF ~tab THEN UNCHANGED <<kmark, tab, kq>> /\ Set(t, [th[t] EXCEPT !.pc = "ret", !.res = "ErrNonExistentWatch"])
                  ELSE /\ tab' = FALSE
@@ -187,13 +196,14 @@ C3(t) == /\ th[t].pc = "c3"
 C4(t) == /\ th[t].pc = "c4" /\ doneResp
          /\ Set(t, [th[t] EXCEPT !.pc = "ret", !.res = "ok"]) /\ closeRet' = TRUE
          /\ UNCHANGED <<kq, kmark, nfs, ovfd, fdOpen, mu, done, doneResp, evq, evClosed, errClosed, tab, rd, errs>>
-Api(t) == Start(t) \/ Check(t) \/ Lock(t) \/ Cs(t) \/ C1(t) \/ C3(t) \/ C4(t)
+ApiProg(t) == (Check(t) \/ Lock(t) \/ Cs(t) \/ C1(t) \/ C3(t) \/ C4(t)) /\ UNCHANGED fsx
+Api(t) == (Start(t) /\ UNCHANGED fsx) \/ ApiProg(t)
 
 Internal == Reader \/ \E t \in Threads : Api(t)
 Next == Internal \/ Consumer \/ Fs
 Spec == Init /\ [][Next]_vars
 \* "every call returns" needs progress of the library only - never of the consumer or of the file system
-FairSpec == Spec /\ WF_vars(Reader) /\ \A t \in Threads : WF_vars(Check(t) \/ Lock(t) \/ Cs(t) \/ C1(t) \/ C3(t) \/ C4(t))
+FairSpec == Spec /\ WF_vars(Reader) /\ \A t \in Threads : WF_vars(ApiProg(t))
 
 ---------------------------------------------------------------------------
 Waiting(t) == th[t].pc \in {"lockwait", "c1", "c4"}
